@@ -118,7 +118,7 @@ def run(ctx):
     ctx.assume('oracle: exact rational integration of the piecewise-linear response on the float inputs; midpoints formed in float64 as the statement\'s midpoints',
                'tolerance 1e-9 relative + 1e-12 of sum|R| (trapezium sums in float64)', 'strictly monotone grids (duplicate frequencies outside the quantifier)')
     ctx.require_events('Filter.rebin:post', 'Filter.normalize:post', 'file:checked', 'flat-spectrum', 'filter:read-from-text', 'rebin:same-filter-again', 'reconvolved:same-name-new-response', 'normalize:filters-sharing-one-array')
-    ctx.require_regimes('grid:not-in-Hz', 'filter:ascending-nu', 'filter:descending-nu', 'grid:ascending-nu', 'grid:descending-nu', 'grid:coarser', 'grid:finer',
+    ctx.require_regimes('filter:integer-response', 'grid:not-in-Hz', 'filter:ascending-nu', 'filter:descending-nu', 'grid:ascending-nu', 'grid:descending-nu', 'grid:coarser', 'grid:finer',
                         'overlap:partial-lo', 'overlap:partial-hi', 'overlap:contains', 'overlap:contained', 'edges:coincide', 'pkg:v1', 'pkg:v2', 'pkg:mixed-grids', 'filter:not-normalised', 'grids:nearly-equal')
     d = ctx.newdir('c06')
     n_reb = 500 if ctx.quick else 15000
@@ -161,6 +161,15 @@ def run(ctx):
         else:
             f = convcheck.build_filter('f', fw, resp, np.sqrt(a * b), descending_nu=desc, normalize=False)
         ctx.regime('filter:descending-nu' if desc else 'filter:ascending-nu')
+        int_resp = False
+        if it % 5 == 3 and how >= 0.3:
+            # a response given as whole numbers (an integer array, e.g. counts or percent): not normalised, re-binned as it is
+            ints = np.maximum(np.round(np.asarray(resp, float) * 9), 0).astype([np.int64, np.int32][it % 2])
+            if ints.max() > 0:
+                f.response = ints[::-1] if not desc else ints
+                resp = ints.astype(float)
+                int_resp = True
+                ctx.regime('filter:integer-response')
         if it % 4 == 2:
             # several filters alive at once, built from one and the same response array (a common shape used for several
             # bands): normalising one must not change another (each keeps the unit integral its own contract established)
@@ -191,7 +200,7 @@ def run(ctx):
                     ctx.event('normalize:callers-array-modified')
             except Exception as exc:
                 ctx.violation('normalize-raised', 'normalize raised: %r' % (exc,), {'wav': fw, 'response': resp})
-        if rng.random() < 0.5:
+        if rng.random() < 0.5 and not int_resp:
             try:
                 f.normalize()
             except Exception as exc:
